@@ -1505,9 +1505,9 @@ enum_stmt :
     }
 
 enum_def : 
-    kywd_enum token_string {
+    kywd_enum string_value {
         l := yylex.(*lexer)
-        l.stack.push(l.builder.Enum(l.stack.peek(), trimQuotes($2)))
+        l.stack.push(l.builder.Enum(l.stack.peek(), $2))
         if chkErr(yylex, l.builder.LastErr) {
             goto ret1
         }
@@ -1579,9 +1579,9 @@ yang_ver_stmt :
     }
 
 units_stmt :
-    kywd_units token_string statement_end {        
+    kywd_units string_value statement_end {        
         l := yylex.(*lexer)        
-        l.builder.Units(l.stack.peek(), tokenString($2))
+        l.builder.Units(l.stack.peek(), $2)
         if chkErr2(l, "units", $3) {
             goto ret1
         }
